@@ -14,6 +14,8 @@ def to_stimulus(beh, bid, cfg=None):
     steps = []
     for st in beh[1:]:
         a = dict(st['last'])
+        if 'lag' in a:
+            a['lag'] = sorted(a['lag']['__set__']) if isinstance(a['lag'], dict) else list(a['lag'])
         steps.append(a)
     return {'id': bid, 'cfg': cfg or {'minISR': 2, 'fetchMax': 2, 'rf': 3}, 'steps': steps}
 
@@ -49,7 +51,9 @@ def features(beh):
             elif kind in ('Crash', 'Restart', 'Checkpoint'):
                 det = _role(state, a['r']) + ('r' if a.get('reach', True) else 'n')
             elif kind == 'Elect':
-                det = ('u' if state['up'][a['n']] else 'd') + ('r' if a['reach'] else 'n')
+                det = ('u' if state['up'][a['n']] else 'd') + ('r' if a['reach'] else 'n') + ('L%d' % len(a['lag']['__set__']))
+            elif kind in ('StaleFetch', 'ApplyMeta'):
+                det = _role(state, a['f'])
             ctx = 'isr%d' % len(isr)
             ctx += 'p' if any(state['pend'][r] for r in state['pend']) else ''
             ctx += 'T' if state['taint']['__set__'] else ''
